@@ -84,6 +84,12 @@ func runC10(c *core.Ctx) {
 		c.Ok("combine-once", "fork.Fold#worker", w.Fn.Pos(), "one Combine(acc, x) per received element")
 	}
 	workerLocalState(c, "fork.Fold", s, w)
+	// "... and then closes its result channel": every made channel has one closer and is closed exactly once on every
+	// exit (a second close panics after the value was delivered) - the ownership rules shared with C06 / C09
+	c.Doc("single-closer", 2, "every made channel has exactly one closing goroutine")
+	c.Doc("close-on-every-exit", 2, "the owner closes exactly once on every exit path, after its last send")
+	c.Doc("no-send-after-close", 2, "every sender is the closer itself or is counted by the WaitGroup the closer waits for, with Done after its last send")
+	stageLifecycleRules(c, s, lifecycleOpts{only: "closing"})
 	// ---- collector
 	collectorRules(c, s, col, w, vals, result, par)
 }
